@@ -24,6 +24,14 @@ theorem lemma_mapOf_zero : ∀ t : Ty, mapOf (some (zero t)) = []
   | .map _ => rfl
   | .struct _ => by simp [zero, mapOf]
 
+theorem lemma_valAtFs : ∀ (vs : List Val) (k : Nat) (q : List Nat),
+    valAtFs vs k q = match vs[k]? with
+      | some x => valAt x q
+      | none => none
+  | [], k, q => by simp [valAtFs]
+  | x :: xs, 0, q => by simp [valAtFs]
+  | x :: xs, k + 1, q => by simp [valAtFs, lemma_valAtFs xs k q]
+
 theorem lemma_valAt_ptr (v : Val) (a : Nat) (r : List Nat) : valAt (.ptr v) (a :: r) = valAt v (a :: r) := by
   simp [valAt]
 
@@ -32,7 +40,11 @@ theorem lemma_valAt_nil (a : Nat) (r : List Nat) : valAt .nil (a :: r) = none :=
 
 theorem lemma_valAt_cons (vs : List Val) (k : Nat) (q : List Nat) (v : Val) (h : vs[k]? = some v) :
     valAt (.struct vs) (k :: q) = valAt v q := by
-  simp [valAt, h]
+  simp [valAt, lemma_valAtFs, h]
+
+theorem lemma_valAt_one (vs : List Val) (k : Nat) (v : Val) (h : vs[k]? = some v) :
+    valAt (.struct vs) [k] = some v := by
+  rw [lemma_valAt_cons vs k [] v h]; simp [valAt]
 
 /-- **transfer.** A leaf `l` (path `q`, non-empty) of a sub-value, seen from an enclosing value
     whose results / initial values at `k :: q` are those of the sub-value at `q` — or, for the
@@ -180,7 +192,7 @@ theorem lemma_zero_fld (tag : Tag) (k : Nat) (h : FieldHdr) :
       · simp at hl
       · simp only [List.mem_singleton, Item.leaf.injEq] at hl
         subst hl
-        exact ⟨[], rfl, fun vs hv => Or.inr (by simp [valAt, hv])⟩
+        exact ⟨[], rfl, fun vs hv => Or.inr (lemma_valAt_one vs k _ hv)⟩
   | .slice e, l, hl => by
     simp only [itemsFld] at hl
     split at hl
@@ -189,7 +201,7 @@ theorem lemma_zero_fld (tag : Tag) (k : Nat) (h : FieldHdr) :
       · simp at hl
       · simp only [List.mem_singleton, Item.leaf.injEq] at hl
         subst hl
-        exact ⟨[], rfl, fun vs hv => Or.inr (by simp [valAt, hv])⟩
+        exact ⟨[], rfl, fun vs hv => Or.inr (lemma_valAt_one vs k _ hv)⟩
   | .map e, l, hl => by
     simp only [itemsFld] at hl
     split at hl
@@ -198,7 +210,7 @@ theorem lemma_zero_fld (tag : Tag) (k : Nat) (h : FieldHdr) :
       · simp at hl
       · simp only [List.mem_singleton, Item.leaf.injEq] at hl
         subst hl
-        exact ⟨[], rfl, fun vs hv => Or.inr (by simp [valAt, hv])⟩
+        exact ⟨[], rfl, fun vs hv => Or.inr (lemma_valAt_one vs k _ hv)⟩
   | .ptr (.prim p), l, hl => by
     simp only [itemsFld] at hl
     split at hl
@@ -207,7 +219,7 @@ theorem lemma_zero_fld (tag : Tag) (k : Nat) (h : FieldHdr) :
       · simp at hl
       · simp only [List.mem_singleton, Item.leaf.injEq] at hl
         subst hl
-        exact ⟨[], rfl, fun vs hv => Or.inr (by simp [valAt, hv])⟩
+        exact ⟨[], rfl, fun vs hv => Or.inr (lemma_valAt_one vs k _ hv)⟩
   | .ptr (.ptr e), l, hl => by
     simp only [itemsFld] at hl
     split at hl
@@ -216,7 +228,7 @@ theorem lemma_zero_fld (tag : Tag) (k : Nat) (h : FieldHdr) :
       · simp at hl
       · simp only [List.mem_singleton, Item.leaf.injEq] at hl
         subst hl
-        exact ⟨[], rfl, fun vs hv => Or.inr (by simp [valAt, hv])⟩
+        exact ⟨[], rfl, fun vs hv => Or.inr (lemma_valAt_one vs k _ hv)⟩
   | .ptr (.slice e), l, hl => by
     simp only [itemsFld] at hl
     split at hl
@@ -225,7 +237,7 @@ theorem lemma_zero_fld (tag : Tag) (k : Nat) (h : FieldHdr) :
       · simp at hl
       · simp only [List.mem_singleton, Item.leaf.injEq] at hl
         subst hl
-        exact ⟨[], rfl, fun vs hv => Or.inr (by simp [valAt, hv])⟩
+        exact ⟨[], rfl, fun vs hv => Or.inr (lemma_valAt_one vs k _ hv)⟩
   | .ptr (.map e), l, hl => by
     simp only [itemsFld] at hl
     split at hl
@@ -234,7 +246,7 @@ theorem lemma_zero_fld (tag : Tag) (k : Nat) (h : FieldHdr) :
       · simp at hl
       · simp only [List.mem_singleton, Item.leaf.injEq] at hl
         subst hl
-        exact ⟨[], rfl, fun vs hv => Or.inr (by simp [valAt, hv])⟩
+        exact ⟨[], rfl, fun vs hv => Or.inr (lemma_valAt_one vs k _ hv)⟩
 theorem lemma_zero_fs (tag : Tag) :
     ∀ (fs : List Fld) (i : Nat) (l : Leaf), Item.leaf l ∈ itemsFs tag i fs →
       ∃ j q, l.path = (i + j) :: q ∧ ∀ vs : List Val, (∀ j, vs[i + j]? = (zeroFs fs)[j]?) → ZeroLike (.struct vs) l
